@@ -46,6 +46,13 @@ type JobSpec struct {
 	Side     int   `json:"side,omitempty"`      // 0: enqueued by the caller; k>0: by side goroutine k
 	Gate     bool  `json:"gate,omitempty"`      // body blocks until the scenario's gate opens
 	Bar      bool  `json:"bar,omitempty"`       // body joins the scenario's barrier (all Bar jobs must run at once)
+	// ErrKind (jobs that return an error): 0 the job's own error value;
+	// 1 the error another scheduler's Wait returned to the body, unchanged,
+	// after a job of that inner scheduler killed its goroutine (a task that runs
+	// a nested directive and hands its error on); 3 / 4 the bare sentinels
+	// context.Canceled / context.DeadlineExceeded (a task that bounds its own
+	// work with a context of its own) although the scenario's context is live.
+	ErrKind int `json:"err_kind,omitempty"`
 	// DeadCtx: the job is submitted with a context of its own that is already
 	// done (1: cancelled, 2: its deadline has passed) while the other jobs'
 	// context is live. It must not be started; its failure is that context's error.
@@ -299,6 +306,14 @@ func genMix(r *vc.Rand, index int) *Scenario {
 	}
 	sc.LooseErrs = r.Chance(1, 6)
 	sc.CtxLikeErrs = r.Chance(1, 6)
+	if r.Chance(1, 4) {
+		kinds := [][]int{{1}, {3, 4}, {1, 3, 4}}[r.Intn(3)]
+		for i := range sc.Jobs {
+			if b := sc.Jobs[i].Beh; (b == BehErr || b == BehCancelErr) && r.Chance(2, 3) {
+				sc.Jobs[i].ErrKind = kinds[r.Intn(len(kinds))]
+			}
+		}
+	}
 	if r.Chance(1, 4) {
 		rate := vc.Pick(r, 5, 15, 30)
 		for i := range sc.Jobs {
